@@ -182,8 +182,9 @@ def hostnameOK (reduced wildLabel : Str) (isWildcard : Bool) : Bool :=
                        | some c => hostnameRegex c))
   && (!isWildcard || leftWildLabel wildLabel)
 
-/-- one iteration of the loop of `validateNames`: `true` = `continue` (accepted), `false` = `return name` -/
-def validateName (r : NameRole) (name : Str) : Bool :=
+/-- one iteration of the loop of `validateNames` after its empty-name test: `true` = `continue` (accepted),
+`false` = `return name` -/
+def validateNameBody (r : NameRole) (name : Str) : Bool :=
   match emailSplit name with
   | none => false
   | some (reduced0, emailDomain, isEmail) =>
@@ -200,18 +201,25 @@ def validateName (r : NameRole) (name : Str) : Bool :=
       else (r.allowedDomains.filter (fun d => !d.isEmpty)).any
              (domainMatches r name reduced emailDomain isEmail isWildcard)
 
-/-- `validateNames`: the first name that is refused, the empty string when none is — exactly as the Go code
-reports it.  Note what that means for a refused name that is itself empty: the scan stops there and the
-caller reads the result as "all names pass". -/
+/-- the non-empty marker `""` (two quote characters) with which an empty name is refused -/
+def emptyMarker : Str := ['"', '"']
+
+/-- one iteration of the loop of `validateNames`: an empty name is never valid (`if name == "" { return … }`
+at the top of the loop body), any other name goes through the body -/
+def validateName (r : NameRole) (name : Str) : Bool := !name.isEmpty && validateNameBody r name
+
+/-- `validateNames`: the first name that is refused, the empty string when none is — as the Go code reports it.
+An empty name is refused with the marker `""`, never with the empty string itself, so the result is empty
+exactly when every name of the list passed. -/
 def validateNames (r : NameRole) : List Str → Str
   | [] => []
-  | n :: rest => if validateName r n then validateNames r rest else n
+  | n :: rest => if n.isEmpty then emptyMarker else if validateName r n then validateNames r rest else n
 
 /-- the callers' test `validateNames(...) != ""`: `true` = a bad name was reported -/
 def namesRefused (r : NameRole) (names : List Str) : Bool := !(validateNames r names).isEmpty
 
-/-- `validateCommonName`: the refused name, the empty string when accepted (the same convention, so an empty
-common name can never be reported) -/
+/-- `validateCommonName`: the refused name, the empty string when accepted (it returns the name itself, so an
+empty common name can never be reported; the callers only pass a non-empty one) -/
 def validateCommonName (r : NameRole) (name : Str) : Str :=
   if r.cnValidations == [str "disabled"] then []
   else if namesRefused r [name] then name
